@@ -155,7 +155,9 @@ UNITS += [
 # in C15's spec (it also decides the dry-run half of that function) and is verified as part of this check as well.
 SATELLITES = [("C15", ["RewriteOptions", "RepairSnapshotsOptions", "ConfigOptions", "TreeModifier", "repair_index_dry_run"]),
               # restore: the packs reported for warm-up (to_packs) are exactly the packs the read plan reads (units of C02's spec)
-              ("C02", ["blob_constants", "BlobLocation", "BlobLocations", "from_blob_location", "can_coalesce", "append", "coalesce", "PackToDo", "RepackReason", "PackInfo", "PrunePack", "CopyPackBlobs", "RestorePackInfo", "FileLocation", "restore_read_of_blob", "restore_needed_pack"])]
+              ("C02", ["blob_constants", "BlobLocation", "BlobLocations", "from_blob_location", "can_coalesce", "append", "coalesce", "PackToDo", "RepackReason", "PackInfo", "PrunePack", "CopyPackBlobs", "RestorePackInfo", "FileLocation", "restore_read_of_blob", "restore_needed_pack"]),
+              # check's hot/cold comparisons (hot listing against cold listing, tree packs in the hot store) are units of C05's spec
+              ("C05", ["check_packs_list", "check_packs_list_hot", "check_hot_files"])]
 
 KANI = [
     Harness(M + "c16_write_bytes", functions=[HC + "write_bytes"], expect_stubs=1),
